@@ -341,6 +341,61 @@ pub fn check_c02(input: &str, stats: &mut Stats) {
             first = Some(p);
         }
     }
+    // the same sentence must come out when the consumer peeks before every next, and nothing may
+    // follow StreamEnd on that path either
+    if let Some(plain) = &first {
+        if !plain.capped {
+            let r = catch(|| {
+                let mut it = Parser::new_from_str(input);
+                let mut evs: Vec<SEv> = vec![];
+                let mut after_end = 0usize;
+                let mut ended = false;
+                let limit = plain.events.len() + 4;
+                for _ in 0..limit {
+                    let peeked = match it.peek() {
+                        None => None,
+                        Some(Ok((e, _))) => Some(Ok(sev(e))),
+                        Some(Err(_)) => Some(Err(())),
+                    };
+                    if matches!(peeked, Some(Err(()))) {
+                        break;
+                    }
+                    match it.next_event() {
+                        None => {
+                            if peeked.is_some() {
+                                after_end += 1000; // peek promised an event that next did not deliver
+                            }
+                        }
+                        Some(Err(_)) => break,
+                        Some(Ok((e, _))) => {
+                            if ended {
+                                after_end += 1;
+                            }
+                            if matches!(e, saphyr_parser::Event::StreamEnd) {
+                                ended = true;
+                            }
+                            evs.push(sev(&e));
+                        }
+                    }
+                }
+                (evs, after_end)
+            });
+            if let Ok((evs, after_end)) = r {
+                stats.cnt("peeking_pulls", 1);
+                if after_end > 0 {
+                    viol(stats, "C02/grammar/after-stream-end/pull-with-peeks".into(), "events were delivered after StreamEnd when the consumer peeks before every next".into(), case_json(input, vec![("config", J::s("pull-with-peeks"))]));
+                } else {
+                    let mut g = Grammar::new();
+                    for (i, e) in evs.iter().enumerate() {
+                        if let Err(m) = g.feed(e) {
+                            viol(stats, "C02/grammar/pull-with-peeks".into(), format!("pull with peeks: event #{i} {}: {m}", e.line()), case_json(input, vec![("config", J::s("pull-with-peeks"))]));
+                            break;
+                        }
+                    }
+                }
+            }
+        }
+    }
     let nt = first.as_ref().is_some_and(nontrivial);
     stats.eval(if nt { Some(input.as_bytes()) } else { None });
     if nt && stats.want_sample() && input.len() > 3 {
